@@ -81,6 +81,7 @@ struct Scn {
     int nw = 0;
     std::deque<JobRec> jobs;
     bool flags[10] = {};
+    int guards_live = 0;
 
     static std::string tid() { return "t" + std::to_string(vshim::self_id); }
     void log(const std::string &s) { S().log_line(s); }
@@ -249,10 +250,12 @@ struct Scn {
         int j;
         bool fired = false;
         bool kill = false;   // 'x': the destructor of the closure that ran deletes the pool
-        Guard(Scn *s, int jj, bool k) : sc(s), j(jj), kill(k) {}
-        Guard(Guard &&o) noexcept : sc(std::exchange(o.sc, nullptr)), j(o.j), fired(o.fired), kill(o.kill) {}
+        Scn *cnt;            // every instance (also a moved-from one) is counted: the container must destroy each of them
+        Guard(Scn *s, int jj, bool k) : sc(s), j(jj), kill(k), cnt(s) { ++cnt->guards_live; }
+        Guard(Guard &&o) noexcept : sc(std::exchange(o.sc, nullptr)), j(o.j), fired(o.fired), kill(o.kill), cnt(o.cnt) { ++cnt->guards_live; }
         Guard(const Guard &) = delete;
         ~Guard() {
+            --cnt->guards_live;
             if (!sc) return;
             if (!fired) sc->on_cancel(j);
             else if (kill) sc->do_destroy();
@@ -449,6 +452,7 @@ struct Scn {
             log(st);
         }
         summary();
+        if (ok) log("closures live=" + std::to_string(guards_live));   // every run_detached closure object has been destroyed
     }
 };
 
